@@ -32,6 +32,9 @@ func vcRunScript(mode string, record string) string {
 		"  bad-metrics) echo 'garbage{' > $METRICS_PATH ;;\n" +
 		"  bad-admission) echo '{\"allowed\":tr' > $VALIDATING_RESPONSE_PATH ;;\n" +
 		"  bad-conversion) echo '{\"convertedObjects\": 5' > $CONVERSION_RESPONSE_PATH ;;\n" +
+		"  rm-context) rm -f \"$BINDING_CONTEXT_PATH\" ;;\n" +
+		"  rm-metrics) rm -f \"$METRICS_PATH\" ;;\n" +
+		"  mv-conversion) mv \"$CONVERSION_RESPONSE_PATH\" \"$CONVERSION_RESPONSE_PATH.moved\" ; rm -f \"$CONVERSION_RESPONSE_PATH.moved\" ;;\n" +
 		"esac\n" +
 		"exit 0\n"
 }
@@ -58,7 +61,7 @@ func TestVerifConfHookRunFiles(t *testing.T) {
 		}
 		return out
 	}
-	for _, mode := range []string{"ok", "exit3", "bad-metrics", "bad-admission", "bad-conversion"} {
+	for _, mode := range []string{"ok", "exit3", "bad-metrics", "bad-admission", "bad-conversion", "rm-context", "rm-metrics", "mv-conversion"} {
 		for _, n := range []int{1, 3} {
 			evaluated++
 			hooksDir := t.TempDir()
@@ -76,7 +79,7 @@ func TestVerifConfHookRunFiles(t *testing.T) {
 			if left := leftovers(hm.TempDir()); len(left) != 0 {
 				report("run-temp-files-left", fmt.Sprintf("mode %s: temporary files left after the execution: %v", mode, left))
 			}
-			wantErr := mode != "ok"
+			wantErr := mode != "ok" && mode != "rm-context"
 			if (err != nil) != wantErr {
 				report("run-outcome", fmt.Sprintf("mode %s: error=%v, failure expected=%v", mode, err, wantErr))
 			}
@@ -130,7 +133,7 @@ func TestVerifConfHookRunFiles(t *testing.T) {
 			report("run-temp-files-left-after-failed-preparation", fmt.Sprintf("hook name of %d characters: preparing the admission response file failed (%v) and the files prepared before it stay in the temporary directory: %v", len(name), firstLine(err.Error()), short))
 		}
 	}
-	fmt.Printf("CONF-STATS evaluated=%d scope=real Hook.Run with a real process: 5 outcomes (ok, exit 3, malformed metrics / admission / conversion output) x 1 and 3 contexts: working directory, 6 environment variables -> existing files (outputs empty), binding context file content, outcome, temporary directory empty afterwards; one execution whose third preparation step fails (file name too long)\n", evaluated)
+	fmt.Printf("CONF-STATS evaluated=%d scope=real Hook.Run with a real process: 8 outcomes (ok, exit 3, malformed metrics / admission / conversion output, the hook removes its own context / metrics / conversion file) x 1 and 3 contexts: working directory, 6 environment variables -> existing files (outputs empty), binding context file content, outcome, temporary directory empty afterwards; one execution whose third preparation step fails (file name too long)\n", evaluated)
 }
 
 func firstLine(s string) string {
